@@ -124,6 +124,10 @@ def jobs(pid, tier):
         sw = {'C07': ['var', 'let_const', 'exist', 'support'], 'C02': ['var'],
               'C10': ['count', 'support']}[pid]
         J.append(Job('memo_seq', dict(N=2, L=2, K=3, ops=sw, middle='swap'), need_outcomes=['done:' + sw[0]]))
+    if pid == 'C01':
+        # ... and across `copy.copy(manager)`: the duplicate answers first, the original afterwards
+        J.append(Job('memo_seq', dict(N=3, L=2, K=3, ops=['apply_and'], middle='copy'),
+                     need_outcomes=['done:apply_and']))
     if pid in SEQ:
         J.append(Job('memo_seq', dict(N=2, L=2, K=3, ops=SEQ[pid]), need_outcomes=['done:' + SEQ[pid][0]]))
         # results that are *new* nodes (freed by the collection in between) need a second operand node
